@@ -776,39 +776,51 @@ def taikoDeviationUpperBoundDom (sf : Special R) (a : TaikoAttrs R) (s : TaikoSt
     let pLower := pLowerBound n p
     nz n && pLowerBoundDom n p && lt (-1.0) pLower && lt pLower 1.0 && nz (sqrt 2.0 * sf.erfInv pLower)
 
+/-- `compute_difficulty_value` after `let Some(estimated_unstable_rate) = … else { return 0.0 }` -/
+def taikoDifficultyBody (sf : Special R) (a : TaikoAttrs R) (m : TaikoMods) (effectiveMissCount : R)
+    (estimatedUnstableRate : R) : R :=
+  let baseDifficulty := 5.0 * fmax 1.0 (a.stars / 0.110) - 4.0
+  let difficultyValue := fmin (powf baseDifficulty 3.0 / 69052.51) (powf baseDifficulty 2.25 / 1250.0)
+  let difficultyValue := difficultyValue * (1.0 + 0.10 * fmax 0.0 (a.stars - 10.0))
+  let lengthBonus := 1.0 + 0.1 * fmin 1.0 (ofNat a.maxCombo / 1500.0)
+  let difficultyValue := difficultyValue * lengthBonus
+  let difficultyValue := difficultyValue * powf 0.986 effectiveMissCount
+  let difficultyValue := if m.ez then difficultyValue * 0.9 else difficultyValue
+  let difficultyValue := if m.hd then difficultyValue * 1.025 else difficultyValue
+  let difficultyValue :=
+    if m.fl then
+      difficultyValue * fmax 1.0 (1.05 - fmin (a.monoStaminaFactor / 50.0) 1.0 * lengthBonus)
+    else difficultyValue
+  let accScalingExp := ofNat 2 + a.monoStaminaFactor
+  let accScalingShift := ofNat 500 - ofNat 100 * (a.monoStaminaFactor * ofNat 3)
+  difficultyValue
+    * powf (sf.erf (accScalingShift / (sqrt 2.0 * estimatedUnstableRate))) accScalingExp
+
 /-- `compute_difficulty_value(effective_miss_count, estimated_unstable_rate)` -/
 def taikoDifficultyValue (sf : Special R) (a : TaikoAttrs R) (m : TaikoMods) (effectiveMissCount : R)
     (estimatedUnstableRate : Option R) : R :=
   match estimatedUnstableRate with
   | none => 0.0
-  | some estimatedUnstableRate =>
-    let baseDifficulty := 5.0 * fmax 1.0 (a.stars / 0.110) - 4.0
-    let difficultyValue := fmin (powf baseDifficulty 3.0 / 69052.51) (powf baseDifficulty 2.25 / 1250.0)
-    let difficultyValue := difficultyValue * (1.0 + 0.10 * fmax 0.0 (a.stars - 10.0))
-    let lengthBonus := 1.0 + 0.1 * fmin 1.0 (ofNat a.maxCombo / 1500.0)
-    let difficultyValue := difficultyValue * lengthBonus
-    let difficultyValue := difficultyValue * powf 0.986 effectiveMissCount
-    let difficultyValue := if m.ez then difficultyValue * 0.9 else difficultyValue
-    let difficultyValue := if m.hd then difficultyValue * 1.025 else difficultyValue
-    let difficultyValue :=
-      if m.fl then
-        difficultyValue * fmax 1.0 (1.05 - fmin (a.monoStaminaFactor / 50.0) 1.0 * lengthBonus)
-      else difficultyValue
-    let accScalingExp := ofNat 2 + a.monoStaminaFactor
-    let accScalingShift := ofNat 500 - ofNat 100 * (a.monoStaminaFactor * ofNat 3)
-    difficultyValue
-      * powf (sf.erf (accScalingShift / (sqrt 2.0 * estimatedUnstableRate))) accScalingExp
+  | some estimatedUnstableRate => taikoDifficultyBody sf a m effectiveMissCount estimatedUnstableRate
+
+def taikoDifficultyBodyDom (sf : Special R) (a : TaikoAttrs R) (eur : R) : Bool :=
+  let baseDifficulty : R := 5.0 * fmax 1.0 (a.stars / 0.110) - 4.0
+  let accScalingExp := ofNat 2 + a.monoStaminaFactor
+  let accScalingShift := ofNat 500 - ofNat 100 * (a.monoStaminaFactor * ofNat 3)
+  powfDom baseDifficulty (2.25 : R) && nz (sqrt 2.0 * eur)
+    && powfDom (sf.erf (accScalingShift / (sqrt 2.0 * eur))) accScalingExp
 
 def taikoDifficultyValueDom (sf : Special R) (a : TaikoAttrs R) (_m : TaikoMods) (_effectiveMissCount : R)
     (estimatedUnstableRate : Option R) : Bool :=
   match estimatedUnstableRate with
   | none => true
-  | some eur =>
-    let baseDifficulty : R := 5.0 * fmax 1.0 (a.stars / 0.110) - 4.0
-    let accScalingExp := ofNat 2 + a.monoStaminaFactor
-    let accScalingShift := ofNat 500 - ofNat 100 * (a.monoStaminaFactor * ofNat 3)
-    powfDom baseDifficulty (2.25 : R) && nz (sqrt 2.0 * eur)
-      && powfDom (sf.erf (accScalingShift / (sqrt 2.0 * eur))) accScalingExp
+  | some eur => taikoDifficultyBodyDom sf a eur
+
+/-- `compute_accuracy_value` after both early returns -/
+def taikoAccuracyBody (a : TaikoAttrs R) (m : TaikoMods) (s : TaikoState) (estimatedUnstableRate : R) : R :=
+  let accValue := powf (70.0 / estimatedUnstableRate) 1.1 * powf a.stars 0.4 * 100.0
+  let lengthBonus := fmin 1.15 (powf (ofNat s.totalHits / 1500.0) 0.3)
+  if m.hd && m.fl && !a.isConvert then accValue * fmax 1.0 (1.05 * lengthBonus) else accValue
 
 /-- `compute_accuracy_value(estimated_unstable_rate)` -/
 def taikoAccuracyValue (a : TaikoAttrs R) (m : TaikoMods) (s : TaikoState) (estimatedUnstableRate : Option R) : R :=
@@ -816,19 +828,18 @@ def taikoAccuracyValue (a : TaikoAttrs R) (m : TaikoMods) (s : TaikoState) (esti
   else
     match estimatedUnstableRate with
     | none => 0.0
-    | some estimatedUnstableRate =>
-      let accValue := powf (70.0 / estimatedUnstableRate) 1.1 * powf a.stars 0.4 * 100.0
-      let lengthBonus := fmin 1.15 (powf (ofNat s.totalHits / 1500.0) 0.3)
-      if m.hd && m.fl && !a.isConvert then accValue * fmax 1.0 (1.05 * lengthBonus) else accValue
+    | some estimatedUnstableRate => taikoAccuracyBody a m s estimatedUnstableRate
+
+def taikoAccuracyBodyDom (a : TaikoAttrs R) (s : TaikoState) (eur : R) : Bool :=
+  nz eur && powfDom (70.0 / eur) (1.1 : R) && powfDom a.stars (0.4 : R)
+    && powfDom (ofNat s.totalHits / 1500.0) (0.3 : R)
 
 def taikoAccuracyValueDom (a : TaikoAttrs R) (_m : TaikoMods) (s : TaikoState) (estimatedUnstableRate : Option R) : Bool :=
   if le a.greatHitWindow 0.0 then true
   else
     match estimatedUnstableRate with
     | none => true
-    | some eur =>
-      nz eur && powfDom (70.0 / eur) (1.1 : R) && powfDom a.stars (0.4 : R)
-        && powfDom (ofNat s.totalHits / 1500.0) (0.3 : R)
+    | some eur => taikoAccuracyBodyDom a s eur
 
 /-- `TaikoPerformanceCalculator::calculate` -/
 def taikoCalculate (sf : Special R) (a : TaikoAttrs R) (m : TaikoMods) (s : TaikoState) : TaikoOut R :=
@@ -881,43 +892,61 @@ def catchAccuracy (s : CatchState) : R :=
   if s.totalHits = 0 then 0.0
   else ofNat (s.fruits + s.droplets + s.tinyDroplets) / ofNat s.totalHits
 
+/-- `(5.0 * (stars / 0.0049).max(1.0) - 4.0).powf(2.0) / 100_000.0` -/
+def catchBase (stars : R) : R := powf (5.0 * fmax (stars / 0.0049) 1.0 - 4.0) 2.0 / 100000.0
+
+/-- `combo_hits` after the `if combo_hits == 0 { combo_hits = max_combo }` -/
+def catchComboHits (a : CatchAttrs R) (s : CatchState) : Nat :=
+  let comboHits := s.fruits + s.droplets + s.misses
+  if comboHits = 0 then a.maxCombo else comboHits
+
+/-- `len_bonus` -/
+def catchLenBonus (comboHits : Nat) : R :=
+  let lenBonus : R := 0.95 + 0.3 * fmin (ofNat comboHits / 2500.0) 1.0
+  if comboHits > 2500 then lenBonus + log10 (ofNat comboHits / 2500.0) * 0.475 else lenBonus
+
+/-- the combo scaling factor (evaluated when `state.max_combo > 0`) -/
+def catchComboScaling (stateCombo maxCombo : Nat) : R :=
+  fmin (powf (ofNat stateCombo) 0.8 / powf (ofNat maxCombo) 0.8) 1.0
+
+/-- `ar_factor` -/
+def catchArFactor (ar : R) : R :=
+  let arFactor : R := 1.0
+  if lt 9.0 ar then
+    arFactor + (0.1 * (ar - 9.0) + (if lt 10.0 ar then 1.0 else 0.0) * 0.1 * (ar - 10.0))
+  else if lt ar 8.0 then arFactor + 0.025 * (8.0 - ar)
+  else arFactor
+
+/-- HD bonus for `ar <= 10.0` / for `ar > 10.0` -/
+def catchHdLow (ar : R) : R := 1.05 + 0.075 * (10.0 - ar)
+def catchHdHigh (ar : R) : R := 1.01 + 0.04 * (11.0 - fmin ar 11.0)
+
+/-- NF penalty -/
+def catchNfFactor (misses : Nat) : R := fmax (1.0 - 0.02 * ofNat misses) 0.9
+
 /-- `CatchPerformanceCalculator::calculate` (returns `pp`) -/
 def catchCalculate (a : CatchAttrs R) (m : CatchMods) (s : CatchState) : R :=
-  let stars := a.stars
   let maxCombo := a.maxCombo
-  let pp := powf (5.0 * fmax (stars / 0.0049) 1.0 - 4.0) 2.0 / 100000.0
-  let comboHits := s.fruits + s.droplets + s.misses
-  let comboHits := if comboHits = 0 then maxCombo else comboHits
-  let lenBonus : R := 0.95 + 0.3 * fmin (ofNat comboHits / 2500.0) 1.0
-  let lenBonus :=
-    if comboHits > 2500 then lenBonus + log10 (ofNat comboHits / 2500.0) * 0.475 else lenBonus
+  let pp := catchBase a.stars
+  let comboHits := catchComboHits a s
+  let lenBonus : R := catchLenBonus comboHits
   let pp := pp * lenBonus
   let pp := pp * powf 0.97 (ofNat s.misses)
-  let pp :=
-    if s.maxCombo > 0 then
-      pp * fmin (powf (ofNat s.maxCombo) 0.8 / powf (ofNat maxCombo) 0.8) 1.0
-    else pp
+  let pp := if s.maxCombo > 0 then pp * catchComboScaling s.maxCombo maxCombo else pp
   let ar := a.ar
-  let arFactor : R := 1.0
-  let arFactor :=
-    if lt 9.0 ar then
-      arFactor + (0.1 * (ar - 9.0) + (if lt 10.0 ar then 1.0 else 0.0) * 0.1 * (ar - 10.0))
-    else if lt ar 8.0 then arFactor + 0.025 * (8.0 - ar)
-    else arFactor
-  let pp := pp * arFactor
+  let pp := pp * catchArFactor ar
   let pp :=
     if m.hd then
-      if le ar 10.0 then pp * (1.05 + 0.075 * (10.0 - ar))
-      else if lt 10.0 ar then pp * (1.01 + 0.04 * (11.0 - fmin ar 11.0))
+      if le ar 10.0 then pp * catchHdLow ar
+      else if lt 10.0 ar then pp * catchHdHigh ar
       else pp
     else pp
   let pp := if m.fl then pp * (1.35 * lenBonus) else pp
   let pp := pp * powf (catchAccuracy s) 5.5
-  if m.nf then pp * fmax (1.0 - 0.02 * ofNat s.misses) 0.9 else pp
+  if m.nf then pp * catchNfFactor s.misses else pp
 
 def catchCalculateDom (a : CatchAttrs R) (_m : CatchMods) (s : CatchState) : Bool :=
-  let comboHits := s.fruits + s.droplets + s.misses
-  let comboHits := if comboHits = 0 then a.maxCombo else comboHits
+  let comboHits := catchComboHits a s
   (if comboHits > 2500 then lt 0.0 (ofNat comboHits / 2500.0 : R) else true)
   && (if s.maxCombo > 0 then
         powfDom (ofNat s.maxCombo) (0.8 : R) && powfDom (ofNat a.maxCombo) (0.8 : R)
